@@ -97,7 +97,7 @@ def run(tape, kind):
     sp.clear_registry()
     want_ad = tape.chance('adaptive', 1, 6)
     spec = sp.gen_inference_spec(tape, disc_kinds=('adist',) if want_ad else ('disc', 'dist'),
-                                 ties=False, far=True)
+                                 ties=False, far=True, ext=True)
     if not want_ad:
         d = [n for n in spec['nodes'] if n['name'] == 'd'][0]
         if d['kind'] == 'disc' and tape.chance('lattice', 1, 2):
